@@ -91,6 +91,119 @@ theorem undeclared_iff {α : Type} (c : List (Str × α)) (mime : Str) :
     | none => simpa using ih
     | some v => simp
 
+/-- **C06(a), key by key.** Against the rank of every declared key (no search order involved): the entry chosen
+by `Content.Get` is declared under a matching key, and **no other declared key matches more specifically** — for
+every pair of declared keys that match the header, the one of lower rank wins; nothing is chosen iff no declared
+key matches at all. (Keys of the content map are distinct.) -/
+theorem contentGet_minimal_rank {α : Type} (c : List (Str × α)) (mime : Str) (v : α)
+    (h : contentGet c mime = some v) :
+    ∃ k r, (k, v) ∈ c ∧ rank mime k = some r ∧ ∀ k' v', (k', v') ∈ c → ∀ r', rank mime k' = some r' → r ≤ r' := by
+  have nomem : ∀ k' (v' : α), (k', v') ∈ c → lookup k' c ≠ none := by
+    intro k' v' hm hl
+    obtain ⟨w, hw⟩ := lookup_isSome_of_mem_keys k' c (mem_keys_of_mem k' v' c hm)
+    rw [hl] at hw; cases hw
+  unfold contentGet at h
+  by_cases hm : mime = []
+  · simp only [hm, if_true] at h
+    refine ⟨star, 3, lookup_some_mem _ _ _ h, by simp [rank, hm], ?_⟩
+    intro k' v' _ r' hr
+    simp only [rank, hm, if_true] at hr
+    split at hr <;> simp_all
+  · simp only [hm, if_false] at h
+    cases h1 : lookup mime c with
+    | some w =>
+      simp only [h1, Option.some.injEq] at h; subst h
+      exact ⟨mime, 0, lookup_some_mem _ _ _ h1, by simp [rank, hm], fun _ _ _ _ _ => Nat.zero_le _⟩
+    | none =>
+      simp only [h1] at h
+      cases h2 : lookup (base mime) c with
+      | some w =>
+        simp only [h2, Option.some.injEq] at h; subst h
+        have hne : base mime ≠ mime := by intro e; rw [e] at h2; rw [h1] at h2; cases h2
+        refine ⟨base mime, 1, lookup_some_mem _ _ _ h2, by simp [rank, hm, hne], ?_⟩
+        intro k' v' hk' r' hr
+        simp only [rank, hm, if_false] at hr
+        by_cases e0 : k' = mime
+        · subst e0; exact absurd h1 (nomem _ _ hk')
+        · simp only [e0, if_false] at hr
+          by_cases e1 : k' = base mime
+          · simp only [e1, if_true, Option.some.injEq] at hr; omega
+          · simp only [e1, if_false] at hr
+            cases hmt : majorType (base mime) with
+            | none => simp [hmt] at hr
+            | some t => simp only [hmt] at hr; split at hr <;> (try split at hr) <;> simp_all <;> omega
+      | none =>
+        simp only [h2] at h
+        cases hmt : majorType (base mime) with
+        | none => simp [hmt] at h
+        | some t =>
+          simp only [hmt] at h
+          cases h3 : lookup (t ++ slashStar) c with
+          | some w =>
+            simp only [h3, Option.some.injEq] at h; subst h
+            have hn0 : t ++ slashStar ≠ mime := by intro e; rw [e] at h3; rw [h1] at h3; cases h3
+            have hn1 : t ++ slashStar ≠ base mime := by intro e; rw [e] at h3; rw [h2] at h3; cases h3
+            refine ⟨t ++ slashStar, 2, lookup_some_mem _ _ _ h3, by simp [rank, hm, hn0, hn1, hmt], ?_⟩
+            intro k' v' hk' r' hr
+            simp only [rank, hm, if_false, hmt] at hr
+            by_cases e0 : k' = mime
+            · subst e0; exact absurd h1 (nomem _ _ hk')
+            · by_cases e1 : k' = base mime
+              · subst e1; exact absurd h2 (nomem _ _ hk')
+              · simp only [e0, e1, if_false] at hr
+                split at hr <;> (try split at hr) <;> simp_all <;> omega
+          | none =>
+            simp only [h3] at h
+            have hn0 : star ≠ mime := by intro e; rw [← e] at h1; rw [h1] at h; cases h
+            have hn1 : star ≠ base mime := by intro e; rw [← e] at h2; rw [h2] at h; cases h
+            have hn2 : star ≠ t ++ slashStar := by intro e; rw [← e] at h3; rw [h3] at h; cases h
+            refine ⟨star, 3, lookup_some_mem _ _ _ h, by simp [rank, hm, hn0, hn1, hn2, hmt], ?_⟩
+            intro k' v' hk' r' hr
+            simp only [rank, hm, if_false, hmt] at hr
+            by_cases e0 : k' = mime
+            · subst e0; exact absurd h1 (nomem _ _ hk')
+            · by_cases e1 : k' = base mime
+              · subst e1; exact absurd h2 (nomem _ _ hk')
+              · by_cases e2 : k' = t ++ slashStar
+                · subst e2; exact absurd h3 (nomem _ _ hk')
+                · simp only [e0, e1, e2, if_false] at hr
+                  split at hr <;> simp_all
+
+/-- … and nothing is chosen exactly when no declared key matches the header at any level -/
+theorem contentGet_none_iff_no_rank {α : Type} (c : List (Str × α)) (mime : Str) :
+    contentGet c mime = none ↔ ∀ k v, (k, v) ∈ c → rank mime k = none := by
+  rw [undeclared_iff]
+  have key : ∀ k, rank mime k ≠ none ↔ k ∈ candidates mime := by
+    intro k
+    unfold rank candidates
+    by_cases hm : mime = []
+    · simp only [hm, if_true, List.mem_singleton]; split <;> simp_all
+    · simp only [hm, if_false]
+      by_cases e0 : k = mime
+      · cases majorType (base mime) <;> simp [e0]
+      · by_cases e1 : k = base mime
+        · subst e1; cases majorType (base mime) <;> simp [e0]
+        · cases hmt : majorType (base mime) with
+          | none => simp [e0, e1]
+          | some t =>
+            simp only [e0, e1, if_false, List.mem_cons, false_or, List.not_mem_nil, or_false]
+            split <;> (try split) <;> simp_all
+  constructor
+  · intro h k v hkv
+    cases hr : rank mime k with
+    | none => rfl
+    | some r =>
+      have hc := (key k).mp (by rw [hr]; simp)
+      have := h k hc
+      obtain ⟨w, hw⟩ := lookup_isSome_of_mem_keys k c (mem_keys_of_mem k v c hkv)
+      rw [this] at hw; cases hw
+  · intro h k hk
+    cases hl : lookup k c with
+    | none => rfl
+    | some w =>
+      have := h k w (lookup_some_mem k c w hl)
+      exact absurd this ((key k).mpr hk)
+
 example : contentGet [("application/json".toList, 1), ("application/*".toList, 2), (star, 3)]
     "application/json; charset=utf-8".toList = some 1 := by decide
 example : contentGet [("application/json; charset=utf-8".toList, 0), ("application/json".toList, 1)]
